@@ -237,4 +237,41 @@ def run(ctx, rep):
         rep.ob("keep", "flows", n >= 1 and ok, f"{n} rule construction site(s): outcome Section{{section_id, must_keep: matcher.must_keep}}, pattern from matcher.input_section_name_patterns, file pattern matcher.input_file_pattern", ps["file"], ps["line"])
         loop_ok = "matcher.input_section_name_patterns" in " ".join(hirq.skeleton(x, lambda n_: None) for x in fold.walk(ps["body"]) if x.get("e") in ("mcall", "call", "path", "field")).replace("local:", "")
         rep.ob("keep", "every-pattern", loop_ok, "every section-name pattern of the description gets a rule", ps["file"], ps["line"])
+    _matcher_per_class(ctx, rep, F)
     rep.assume("glob::Pattern::matches implements *, ?, [..] as fnmatch does (dependency); must_keep -> GC root is decided by C05")
+
+
+def _matcher_per_class(ctx, rep, F):
+    """Which matcher a linker-script pattern becomes, per classification (MIR, guard-insensitive): a pattern classified as a glob (Star / NonStar: it contains
+    an unescaped metacharacter somewhere) may only become a compiled Glob - never a literal Exact or Prefix matcher, whatever extra guard an arm carries."""
+    import decide
+    P = ctx.program()
+    rep.rule("matcher-per-class", "in SectionRule::new: SectionNameMatcher::Exact is built only on the Exact / EscapedExact classification edges, Glob never on those edges, "
+             "and no Prefix matcher is built from a script pattern at all (Star says `an unescaped * exists`, not `the only metacharacter is a trailing *`)")
+    bodies = [F.body("libwild::layout_rules::SectionRule::new")] + list(F.closures_of("libwild::layout_rules::SectionRule::new"))
+    if bodies[0] is None:
+        rep.lost("matcher-per-class", "layout_rules::SectionRule::new")
+        return
+    n = 0
+    for b in bodies:
+        for bi, blk in enumerate(b.blocks):
+            if blk.get("cleanup"):
+                continue
+            for st in blk["s"]:
+                if st["k"] == "assign" and st["rv"]["k"] == "agg" and str(st["rv"].get("adt") or "").endswith("SectionNameMatcher"):
+                    n += 1
+                    v = st["rv"].get("variant")
+                    cls = next((a[1] for a in decide.atoms_at(P, F, b, bi) if a[0] == "variant:GlobPatternType"), None)
+                    cls_s = sorted(cls) if cls else "Star|NonStar (joined arm)"
+                    if v == "Exact":
+                        ok = cls in (frozenset({"Exact"}), frozenset({"EscapedExact"}))
+                    elif v == "Glob":
+                        ok = cls is None or not (cls & {"Exact", "EscapedExact"})
+                    else:
+                        # a literal-prefix fast path is sound only for a classification of its own (e.g. a dedicated `TrailingStar` class that the
+                        # classifier establishes by scanning the whole pattern); under Star/NonStar/Exact it is not
+                        ok = cls is not None and len(cls) == 1 and not (cls & {"Exact", "EscapedExact", "Star", "NonStar"})
+                    rep.ob("matcher-per-class", f"{v}#{n}", ok,
+                           f"{v} matcher built for classification {cls_s}" + ("" if ok else ": a pattern with metacharacters is matched as literal bytes, so sections GNU ld would place here "
+                           "fall through to a later description (wrong output section, lost KEEP)"), b.file, st.get("l"))
+    rep.floor("matcher-per-class", "matcher constructions in SectionRule::new", n, 3)
